@@ -11,4 +11,4 @@ for name, un in UNITS.items():
     for s, d in r.sites.items():
         flag = '' if d['status']=='discharged' else '   <<<<<<'
         print(f"   {d['status']:11s} {d['kind']:8s} x{d['instances']:<3d} {s}{flag}")
-        if d['status']!='discharged' and d.get('model'): print("        model:", d['model'][:400])
+        if d['status']!='discharged': print("        goal:", d['goal'][:300]); print("        model:", (d.get('model') or '')[:300])
